@@ -37,7 +37,56 @@ def _pred(line, out):
     return "vsock_pred_all c03_after_death_ok : %s | %s" % (" ".join(t[1:]), out)
 
 
+# ---- cancellation: the connection future is dropped in mid-flight (component `vdrop`) ----
+def gen_vdrop(rng, tier):
+    """A vsock case cut at a random point, the connection dropped there (X), then application calls on the
+    halves that are left: with calls parked before the drop (reader waiting for data, writer on a full ring,
+    flush/shutdown with bytes unacknowledged), with and without data buffered in either direction."""
+    from . import vsockgen
+    n = 250 if tier == "quick" else 5000
+    base = vsockgen.gen(rng.fork("vd_open"), "quick")[:n // 2] + c17.gen(rng.fork("vd_c17"), "quick")[:n - n // 2]
+    out = []
+    for i, ln in enumerate(base):
+        r = rng.fork("vd%d" % i)
+        t = ln.split()
+        cfg, ops = t[1:18], t[18:]
+        cut = r.range(1, max(1, len(ops)))
+        pre = ops[:cut]
+        # park something right before the drop
+        pre += r.choice([[], ["R100"], ["W%d,0" % r.choice([10, 5000, 40000]), "F"], ["H"], ["R100", "W40000,0", "W40000,1", "F"],
+                         ["P", "R10"], ["W100,0", "P", "H"]])
+        post = []
+        for _ in range(r.range(2, 8)):
+            post.append(r.choice(["R100", "R100", "W10,0", "W5000,3", "F", "H", "F", "DR", "DW"]))
+        out.append("vdrop " + " ".join(cfg) + " " + " ".join(pre) + " X " + " ".join(post))
+    return out
+
+
+def _vdrop_nontrivial(line, out):
+    return " X/" in out
+
+
+def _vdrop_classify(line, out):
+    toks = out.split()
+    xs = [t for t in toks if t.startswith("X/")]
+    if not xs:
+        return "ended-before-drop"
+    after = toks[toks.index(xs[0]) + 1:]
+    kinds = sorted(set(t.split("/")[0][:4].rstrip("0123456789:") for t in after))
+    return "drop:" + xs[0][2:] + ":" + ",".join(kinds)
+
+
+def _vdrop_pred(line, out):
+    if "BADCASE" in out or "BADCONFIG" in out:
+        return None
+    return "vdrop_pred %s | %s" % (" ".join(line.split()[1:]), out)
+
+
+VDROP = {"name": "vdrop", "keep": vsock_common.KEEP, "gen": gen_vdrop, "nontrivial": _vdrop_nontrivial,
+         "classify": _vdrop_classify, "pred": _vdrop_pred}
+
 COMPONENTS = [
+    VDROP,
     {"name": "vsock", "keep": vsock_common.KEEP, "gen": c17.gen, "nontrivial": nontrivial, "classify": classify,
      "pred": _pred},
     dict(c04.COMPONENTS[0]),
